@@ -3,16 +3,17 @@
 patch applies, existing test suite passes with it, demo fails with it and passes without it.
 Writes /tmp/mut/confirm.json.  Scratch only; never touches /repo."""
 import json, os, subprocess, sys, concurrent.futures as cf
+BASE = os.environ.get("MUT_BASE", "/tmp/mut")
 
 def sh(cmd, cwd, timeout=1800):
     p = subprocess.run(cmd, shell=True, cwd=cwd, stdout=subprocess.PIPE, stderr=subprocess.STDOUT, text=True, timeout=timeout)
     return p.returncode, p.stdout
 
 def confirm(pid):
-    wt = "/tmp/mut/" + pid
+    wt = BASE + "/" + pid
     out = {}
     for var in ("a", "b"):
-        d = "/tmp/mut/out/%s/%s" % (pid, var)
+        d = BASE + "/out/%s/%s" % (pid, var)
         if not os.path.exists(d + "/patch.diff"):
             out[var] = {"ok": False, "why": "missing"}; continue
         meta = json.load(open(d + "/meta.json"))
@@ -47,6 +48,6 @@ with cf.ThreadPoolExecutor(max_workers=6) as ex:
     for pid, out in ex.map(confirm, pids):
         res[pid] = out
         print(pid, {k: v.get("ok") for k, v in out.items()}, flush=True)
-old = json.load(open("/tmp/mut/confirm.json")) if os.path.exists("/tmp/mut/confirm.json") else {}
+old = json.load(open(BASE + "/confirm.json")) if os.path.exists(BASE + "/confirm.json") else {}
 old.update(res)
-json.dump(old, open("/tmp/mut/confirm.json", "w"), indent=1)
+json.dump(old, open(BASE + "/confirm.json", "w"), indent=1)
